@@ -41,14 +41,13 @@ CHECKS = {
     "C14": dict(
         text="Theorems (Coq, all nested values, no bound on depth/size): fn_converts_exactly_plain / fn_refuses_nonplain "
              "(from_native returns a schema exactly for plain values and raises ValueError for every other value at any "
-             "depth), fn_accepts (the schema is well-formed and its own value conforms; NaN excluded: known finding "
-             "F10, refuted witness proved), fn_rejects_different (every value the schema accepts is the same plain value "
+             "depth), fn_accepts (the schema is well-formed and its own value conforms, NaN included since the repair of F10), fn_rejects_different (every value the schema accepts is the same plain value "
              "up to True/False~1/0 and math.isclose), fn_generates_exactly (for every world and tape the generator "
              "returns exactly the value and consumes no draw). Tie: per-run comparison of from_native's "
              "result/exception with the model; oracle on /repo: validate(self), fake under a tape returns exactly the "
              "value consuming no draw, every one-step perturbation at every depth is rejected, non-plain zoo refused "
              "with ValueError.",
-        note=COMMON_NOTE + "F10 (NaN) is an open known finding; F11 repaired by a fix: commit.",
+        note=COMMON_NOTE + "F10 (NaN) and F11 were repaired by fix: commits.",
         technique="Coq proof (nested induction over values) + vm_compute correspondence + direct oracle",
         design="6 C14"),
     "C05": dict(
@@ -67,28 +66,31 @@ CHECKS = {
         text="Theorems (Coq, all well-formed schemas, all plain values, ALL w): subst_pins (every value the substituted "
              "schema accepts carries the substituted data: scalars equal up to True/False~1/0 and the float tolerance, "
              "lists element-wise, dicts on every key given), subst_keeps_unspecified (absent dict keys keep schema, "
-             "optionality and position). The clause 'if v conforms to S then S % v accepts v' is stated in full and "
+             "optionality and position), subst_accepts_value_partial ('if v conforms to S then S % v accepts v' for "
+             "every schema without a choice point: no any with two or more alternatives, no [..., x, ...] list - "
+             "decidable predicate choice_free). The full clause is stated and "
              "REFUTED for the faithful model (subst_accepts_value_refuted: known findings F20/F25, witnesses replay on "
-             "/repo); it is checked on /repo by the oracle outside that region. Proof is partial in that sense, and in "
+             "/repo); at choice points it is checked on /repo by the oracle. Proof is partial in that sense, and in "
              "that the generation clause is checked by the oracle on the real generator only. Tie: per-run comparison of "
              "the real substitute's result with the model; oracle: (a) accepts-v, (b) generated/accepted values carry v, "
              "(c) unspecified keys unchanged.",
-        note=COMMON_NOTE + "Known findings F20, F25 (choice points over partial dicts) and F10 (NaN) are open and "
-             "listed in KNOWN_FINDINGS.txt; classified by schema shape so other failures are still reported.",
+        note=COMMON_NOTE + "Known findings F20, F25 (choice points over partial dicts) are open and "
+             "listed in KNOWN_FINDINGS.txt; classified by schema shape so other failures are still reported. F10 (NaN), "
+             "F22, F26 were repaired by fix: commits.",
         technique="Coq proof (nested induction, positional window lemmas) + refutation witness by vm_compute + vm_compute correspondence + direct oracle",
         design="6 C04"),
     "C12": dict(
         text="Theorems (Coq): subst_only_substerr (all well-formed schemas, EVERY value incl. placeholders, opaque "
              "objects, unconvertible members: substitute returns a schema or fails with SubstitutionError, never "
              "another exception nor DeclarationError; ill_formed_raises shows the well-formedness hypothesis is needed, "
-             "F22) and subst_idempotent + subst_result_revalidates (for every plain, NaN-free value with s % v = s': "
+             "F22) and subst_idempotent + subst_result_revalidates (for every plain value with s % v = s': "
              "s' % v = s', the SAME schema, and the partial validator accepts v at every path - also at the choice "
              "points where 'the result accepts v' fails). 'Never returns a schema that cannot be generated from' is "
              "decided per run by the oracle on /repo (when every sub-schema of S generates accepted values under "
              "min/max/random tapes, so must S % v) - partial in that clause.",
-        note=COMMON_NOTE + "Open known findings: F10 (NaN: not idempotent / rejects its own pinned value; refuted "
-             "example in props/C12.v), F22 (`...` placeholder kept in the middle of an element list). F08, F09, F11 "
-             "were repaired by fix: commits.",
+        note=COMMON_NOTE + "Open known finding: F28 (a rejected int beyond CPython's int->str digit limit: the "
+             "SubstitutionError message cannot be rendered, ValueError escapes; message rendering is outside the "
+             "model). F08, F09, F10 (NaN), F11, F22 were repaired by fix: commits.",
         technique="Coq proof (outcome-class invariant + fixpoint lemma by nested induction over schemas and values) + vm_compute correspondence + direct oracle",
         design="6 C12"),
     "C18": dict(
@@ -105,15 +107,16 @@ CHECKS = {
         design="6 C18"),
     "C15": dict(
         text="Theorems (Coq, all schemas, no bound): eq_sym and ne_is_negb and eq_value_is_validate unconditional; eq_refl "
-             "and rebuild_equal under no_nan_params (refuted witness for NaN: F10); eq_same_verdicts / "
+             "and rebuild_equal for all schemas incl. NaN parameters (F10 repaired); eq_same_verdicts / "
              "discriminated_unequal and eq_trans under the decidable marker_free hypothesis, with refuted witnesses "
              "for the unrestricted statements (F19: a `...` marker compared with a sub-schema that validates it). The "
              "model reproduces Schema.__eq__ + Props.__eq__ incl. the fallback through validate. Tie: ==, != both "
              "directions and schema == value on the real code vs the model; oracle on /repo: reflexive, symmetric, "
              "negation, rebuild, transitivity on triples, equal => same verdicts on probes, single-parameter variants "
              "that some probe tells apart are unequal.",
-        note=COMMON_NOTE + "Partial: the property holds on the unchanged tree only outside F10 (NaN parameters) and F19 "
-             "(markers facing universal sub-schemas); both are open known findings classified by input shape.",
+        note=COMMON_NOTE + "Partial: the property holds on the unchanged tree only outside F19 "
+             "(markers facing universal sub-schemas), an open known finding classified by input shape. F10 (NaN "
+             "parameters) was repaired by a fix: commit.",
         technique="Coq proof (double nested induction over schemas) + refutation witnesses by vm_compute + vm_compute correspondence + direct oracle",
         design="6 C15"),
     "C19": dict(
@@ -162,12 +165,11 @@ CHECKS = {
              "of any length): decl_only_declerr / run_only_declerr (an arity-correct call never raises anything but "
              "DeclarationError), redeclare_rejected, decl_fixed_conforms + run_dsl_inv (a decidable invariant dsl_inv "
              "holds of every bare type and is preserved by every successful call; it implies that a fixed value - or "
-             "a fully fixed element list - conforms to its own schema), with the NaN exclusion made explicit and "
-             "refuted without it (F10). Tie: exhaustive call chains (length <= 2, sampled 3-4; thorough: <= 3) over a "
+             "a fully fixed element list - conforms to its own schema; NaN included since the repair of F10: decl_nan_conforms). Tie: exhaustive call chains (length <= 2, sampled 3-4; thorough: <= 3) over a "
              "boundary universe run on /repo and compared with the model; oracle: exception class, receiver unchanged, "
              "validate(result, value), re-declaration rejected.",
-        note=COMMON_NOTE + "Python arity errors (TypeError) are outside the property (arity_ok). F10 (NaN) open known "
-             "finding; F12, F13 repaired by fix: commits.",
+        note=COMMON_NOTE + "Python arity errors (TypeError) are outside the property (arity_ok). F10 (NaN), "
+             "F12, F13 repaired by fix: commits.",
         technique="Coq proof (guard-ladder case analysis + invariant preservation) + vm_compute correspondence over enumerated chains + direct oracle",
         design="6 C10"),
     "C11": dict(
